@@ -28,7 +28,9 @@ CLAIMED = {
              "log is the drained batches in order, each repeated as a whole block. The wrap clause is refuted for the code "
              "as it is (known finding). The real AIOKafkaProducer runs under a deterministic simulator with fault "
              "schedules; every per-partition boundary trace must be accepted by the model with equal log/verdicts/acks, and "
-             "independent monitors state the property on the simulated logs.",
+             "independent monitors state the property on the simulated logs. The transactional producer (idempotent, plus "
+             "commit/abort acting on queued batches) is exercised by monitors only: retriable Produce faults with commit/abort "
+             "issued while a stamped batch sits re-enqueued, no sequence gap / duplicate / lost acknowledged record on the leaders.",
         note="Trusted: Coq kernel; translator for the increment (validated per run); hand model Producer.v tied by trace "
              "acceptance; simulated cluster (idempotence rule from Kafka's ProducerStateManager) as broker oracle; "
              "observation wrappers installed from outside; one asyncio ready-queue order per schedule. No axioms. "
@@ -271,7 +273,10 @@ CLAIMED = {
              "subscriptions, after members leave, no Move happens, so survivors keep everything; consistent user data is taken "
              "verbatim. The 'members joined' clause depends on the visiting order, which the model abstracts (partial): it is "
              "searched exhaustively over all second rounds of the bounded space and two-step chains and on random chains of <=5 "
-             "rounds, all through the real user-data encoding.",
+             "rounds, all through the real user-data encoding. The mechanism behind that clause is modelled and proved separately: the "
+             "candidate order of the identical-subscription branch is heaviest-first, one partition per turn (C15_Order.order_ok, "
+             "checked on the real sorted_partitions of every logged round), and along any such order members that have shed a "
+             "partition stay within one of the heaviest (c15_heaviest_first_lockstep).",
         note="The user-data byte codec is not modelled (tied by correspondence). c15_plus_needs_visiting_order shows the model's "
              "guards alone do not imply the 'members joined' clause. Same trusted base as C14. No axioms.",
         technique="Coq proof at the control-skeleton level + two consecutive real assign() calls compared partition by partition through the real user-data encoding",
